@@ -65,6 +65,8 @@ def _family(r):
             v = (k * base) % r
             out.update((v, r - v))
     out.update(((r - 1) // 2, (r + 1) // 2))
+    from vf.model import nt
+    out.update(nt.endo_scalars(r))
     return sorted(v for v in out if 0 < v < r)
 
 
